@@ -15,6 +15,10 @@ import Proofs.InterpReturn
   scope, parameters bound by name, `self` = the receiver, return register = none) and hands back the register;
   `PyxModel/Interp/Model.lean` models `mk_enum` / `mk_constant` on the rows of the model files.
   That the implementation delivers what `Spec` delivers is decided on every run by harness/prop_C15.py.
+  Name spaces: `Spec` keeps functions, bridges / external entities, operations, enumerations and constants in separate
+  tables (OAL tells them apart by syntax).  The implementation kept them in ONE dictionary: a constant, enumeration or
+  external entity named like a function, and a function named like a class, hid one another — found by this check,
+  repaired in /repo dc771e3 and 51d2937 (KNOWN_FINDINGS.txt), and generated since as ordinary cases (family `clash`).
 -/
 namespace PyxProps.C15
 open Pyx.Interp
@@ -139,31 +143,41 @@ theorem return_register_untouched (C : Ctx) (n : Nat) (s : Stmt) (c c' : Cfg) (o
     c'.fr.kind = c.fr.kind ∧ (o ≠ .ret → c'.fr.ret = c.fr.ret) :=
   presRet_run C n s c o c' h hk
 
-/-- **the value of the executed return**: wherever in the body the `return <expr>` sits — nested in blocks, `if` /
-    `elif` / `else`, `while`, `for each` to any depth — an invocation (function, bridge, operation) that delivers `v`
-    either ended its body without a value return (fell through, bare `return;`, `control stop`) and `v` is nothing,
-    or the body ended by `return`, some expression was evaluated to exactly `v`, and after that evaluation nothing but
-    unwinding happened (the state the caller gets back is the state right after that evaluation).
-    Consequently a value other than nothing is always the value of an executed `return <expr>`. -/
+/-- **the value of the executed return**, with the witness tied to the body: an invocation (function, bridge,
+    operation) that delivers `v` either ended its body without a value return (fell through, bare `return;`,
+    `control stop`) and `v` is nothing, or there is a statement `return e` OCCURRING IN THE BODY (`OccB`: at any depth
+    of blocks, `if` / `elif` / `else`, `while`, `for each`) whose expression `e` was evaluated — in a configuration `c0`
+    of the callee's own activation (its walker kind, its parameters bound by name, its `self`) whose state is reached
+    from the state at the call by a history of state operations — to exactly `v`; the body ended by `return`, and after
+    that evaluation nothing but unwinding happened (the state the caller gets back is the state right after the
+    evaluation).  A value other than nothing therefore is the value of a return statement of this body, evaluated in
+    this activation. -/
 theorem return_value_executed (C : Ctx) (n : Nat) (kind : WalkerKind) (body : Block) (kw : List (String × Val))
     (self : Val) (c c2 : Cfg) (v : Val) (hk : NotDerived kind)
     (h : invoke (run C n) kind body kw self c = some (.ok (v, c2))) :
     ((v = .none ∧ ∃ o c', execBlock (run C n) body { fr := mkFrame kind kw self, st := c.st } = some (.ok (o, c')) ∧ o ≠ .ret) ∨
-     (∃ e c0 cE c', (run C n).eval e c0 = some (.ok (v, cE)) ∧
+     (∃ e c0 cE c', OccB (.ret (some e)) body ∧
+        c0.fr.kind = kind ∧ c0.fr.params = paramsOf kw ∧ c0.fr.self = self ∧ Reach C c.st c0.st ∧
+        (run C n).eval e c0 = some (.ok (v, cE)) ∧
         execBlock (run C n) body { fr := mkFrame kind kw self, st := c.st } = some (.ok (.ret, c')) ∧
         c'.st = cE.st ∧ c2.st = cE.st)) ∧
     (v ≠ .none → ∃ c', execBlock (run C n) body { fr := mkFrame kind kw self, st := c.st } = some (.ok (.ret, c')) ∧
         v = c'.fr.ret) :=
   ⟨invoke_delivers_executed_return hk h, invoke_value_needs_return hk h⟩
 
-/-- a statement completes with the outcome `ret` only through a return event: some expression was evaluated to `v`,
-    the register set to `v`, and whatever ran afterwards left state and register alone — for every statement, at
-    every nesting depth, for every fuel -/
+/-- a statement `s` completes with the outcome `ret` only through a return statement OCCURRING IN `s` (`Occ`: `s`
+    itself or a statement nested in its blocks): its expression was evaluated to `v` in a configuration of the same
+    activation (same kind, parameters, self) whose state is reached from the state `s` started in, `v` is in the
+    register, and the final state is the state right after that evaluation — for every statement, at every nesting
+    depth, for every fuel -/
 theorem return_outcome_has_event (C : Ctx) (n : Nat) (s : Stmt) (c c' : Cfg)
     (h : (run C n).exec s c = some (.ok (.ret, c'))) :
-    ∃ e c0 v cE, (run C n).eval e c0 = some (.ok (v, cE)) ∧ c'.st = cE.st ∧ c'.fr.ret = v := by
-  obtain ⟨c1, ⟨e, c0, v, cE, hev, hc1⟩, hs1, hs2⟩ := retInv_run C n s c .ret c' h rfl
-  exact ⟨e, c0, v, cE, hev, by rw [hs1, hc1], by rw [hs2, hc1]⟩
+    ∃ e c0 v cE, Occ (.ret (some e)) s ∧
+      (c0.fr.kind = c.fr.kind ∧ c0.fr.params = c.fr.params ∧ c0.fr.self = c.fr.self) ∧ Reach C c.st c0.st ∧
+      (run C n).eval e c0 = some (.ok (v, cE)) ∧ c'.st = cE.st ∧ c'.fr.ret = v := by
+  obtain ⟨_, hev⟩ := retInv_run C n s c .ret c' h
+  obtain ⟨e, c0, v, cE, hin, hl, he, hs1, hs2⟩ := hev rfl
+  exact ⟨e, c0, v, cE, hin, hl.1, hl.2, he, hs1, hs2⟩
 
 /-! ## derived attributes -/
 
@@ -373,6 +387,17 @@ example : ∃ c2, invoke (run C1 30) .function
       ((C1.callables.find? (fun f => f.name = "deep")).map Callable.body |>.getD [])
       [("a", .int 2), ("b", .int 5)] .none cfg1) (v := .int 15) (by decide +kernel)
   exact ⟨c2, h, (return_value_executed C1 30 _ _ _ _ _ _ _ (by simp [NotDerived]) h).2 (by simp)⟩
+
+/-- … and (first conjunct) 15 is the value of a `return e` statement that OCCURS in the body of `deep`, evaluated in an
+    activation with `deep`'s parameters: the "nothing" alternative is excluded by the value -/
+example : ∃ e c0 cE, OccB (.ret (some e)) ((C1.callables.find? (fun f => f.name = "deep")).map Callable.body |>.getD []) ∧
+    c0.fr.params = paramsOf [("a", .int 2), ("b", .int 5)] ∧ (run C1 30).eval e c0 = some (.ok (.int 15, cE)) := by
+  obtain ⟨c2, h⟩ := ok_of_valOfR (r := invoke (run C1 30) .function
+      ((C1.callables.find? (fun f => f.name = "deep")).map Callable.body |>.getD [])
+      [("a", .int 2), ("b", .int 5)] .none cfg1) (v := .int 15) (by decide +kernel)
+  rcases (return_value_executed C1 30 _ _ _ _ _ _ _ (by simp [NotDerived]) h).1 with ⟨hv, _⟩ | ⟨e, c0, cE, c', hin, _, hp, _, _, hev, _⟩
+  · cases hv
+  · exact ⟨e, c0, cE, hin, hp, hev⟩
 
 /-- the bare `return;` nested at the same place delivers nothing: `deep(a: 2, b: 0)` -/
 example : valOfR ((run C1 30).eval (.call .function "deep" [("a", .int 2), ("b", .int 0)]) cfg1) = some .none := by
